@@ -183,7 +183,7 @@ theorem C13_post_completes_with_poll {name : String} {op : Op} {a b : World} (h 
   intro a' b'
   cases h.step n with
   | susp h1 => exact Or.inl h1
-  | done h1 h2 h3 => exact Or.inr ⟨h1, h2, h3⟩
+  | done h1 h2 h3 => exact Or.inr ⟨h1, h2, h3.same (fun d hd => by cases hd)⟩
   | handed u0 oa h1 h2 h3 h4 h5 =>
     right
     have e : a' = wrap (u0.finishOp name op) oa := by rw [← ev_AF_post]; exact h1
@@ -281,8 +281,34 @@ theorem C13_start_subscribe_vs_poll (w : World) (r : SubReq) (hf : w.fut = none)
   · rw [ea, eb]
     cases hout with
     | susp h1 h2 h3 h4 h5 => exact Or.inr (Or.inl ⟨h3, ⟨h4.avail, h4.calm⟩, _, _, h1, h2, h5⟩)
-    | done h1 h2 h3 => exact Or.inr (Or.inr ⟨h1, h2, h3⟩)
+    | done h1 h2 h3 => exact Or.inr (Or.inr ⟨h1, h2, h3.same (fun d hd => by cases hd)⟩)
     | handed u0 h1 h2 h3 h4 h5 => exact Or.inl ⟨u0, by rw [h1], Or.inr ⟨h3, h5⟩⟩
+
+/-- **`disconnect` inside its preliminary flush against a `poll`.** One POLL with the same decision: the
+worlds are related again; or the queues are drained and `disconnect` goes on to write DISCONNECT from the
+state the `poll` ends in; or both calls failed — and then either in the same state (a transport error
+ends the connection in both) or, for an error that is not a transport error (`WriteZero`), `disconnect`
+has ended the connection and `poll` has not: run A's state is run B's after `handle_disconnect`, and run
+A's handle is dead. -/
+theorem C13_disconnect_flush_vs_poll {d : Disconnect} {a b : World} (h : RF (.discPre d) a b) (n : Nat) :
+    let a' := a.execDirective (.d n)
+    let b' := b.execDirective (.d n)
+    RF (.discPre d) a' b' ∨
+    (∃ u0 oa, a' = wrap (ev (.AF u0 (.discPre d))) oa ∧ b'.fut = none ∧ b'.lastRes = some (.ok ()) ∧ u0.fin = b'.fin) ∨
+    (a'.fut = none ∧ b'.fut = none ∧ (a'.fin = b'.fin ∨ (a'.fin = (b'.handleDisconnect).fin ∧ a'.live = false))) := by
+  intro a' b'
+  cases h.step n with
+  | susp h1 => exact Or.inl h1
+  | handed u0 oa h1 h2 h3 h4 h5 => exact Or.inr (Or.inl ⟨u0, oa, h1, h3, h4, h5⟩)
+  | done h1 h2 h3 =>
+    refine Or.inr (Or.inr ⟨h1, h2, ?_⟩)
+    rcases h3 with h3 | ⟨_, h3⟩
+    · exact Or.inl h3
+    · refine Or.inr ⟨h3, ?_⟩
+      have hc : a'.conn = (b'.handleDisconnect).conn := (C13_fin_fields h3).2.1
+      show World.live a' = false
+      unfold World.live; rw [hc]
+      exact handleDisconnect_live b'
 
 /-! ### 4. Examples -/
 
